@@ -9,6 +9,7 @@ import (
 	"reflect"
 	"sort"
 	"strconv"
+	"sync/atomic"
 
 	gio "github.com/whatap/golib/io"
 	"github.com/whatap/golib/util/hmap"
@@ -23,6 +24,22 @@ type lkey int
 func (k lkey) Hash() uint { return uint(k) * 7 }
 func (k lkey) Equals(o hmap.LinkedKey) bool {
 	x, ok := o.(lkey)
+	return ok && x == k
+}
+
+// poison mode (panic-safety probe): empty-interface parameters get an uncomparable value, LinkedKey
+// parameters a key whose Equals panics once armed, comparators panic
+var poisonMode int32
+var poisonArmed int32
+
+type poisonKey int
+
+func (k poisonKey) Hash() uint { return uint(k) * 7 }
+func (k poisonKey) Equals(o hmap.LinkedKey) bool {
+	if atomic.LoadInt32(&poisonArmed) != 0 {
+		panic("Equals of a user key panics")
+	}
+	x, ok := o.(poisonKey)
 	return ok && x == k
 }
 
@@ -74,6 +91,14 @@ var (
 
 // keyVal builds the key / element number k for a parameter of type t.
 func keyVal(t reflect.Type, k int) (reflect.Value, bool) {
+	if atomic.LoadInt32(&poisonMode) != 0 {
+		switch {
+		case t == tLinkedKey:
+			return reflect.ValueOf(poisonKey(k)), true
+		case t.Kind() == reflect.Interface && t.NumMethod() == 0:
+			return reflect.ValueOf([]int{k}), true // uncomparable: `==` on two of these panics at run time
+		}
+	}
 	switch {
 	case t == tLinkedKey:
 		return reflect.ValueOf(lkey(k)).Convert(reflect.TypeOf(lkey(0))), true
@@ -182,6 +207,9 @@ func buildArgs(obj interface{}, mt reflect.Type, k int, mkSame func() interface{
 // lessFunc makes a comparator `func(a, b K) bool` = a < b for the key types in use.
 func lessFunc(ft reflect.Type) reflect.Value {
 	return reflect.MakeFunc(ft, func(in []reflect.Value) []reflect.Value {
+		if atomic.LoadInt32(&poisonArmed) != 0 {
+			panic("user comparator panics")
+		}
 		res := false
 		if len(in) == 2 {
 			a, b := in[0], in[1]
